@@ -27,22 +27,32 @@ ENUM_OF = {"message_type": "header.SOMEIPMessageType", "return_code": "header.SO
 
 
 def writer_table(run, prog, eng, fi, me):
-    """-> (Fmt-like signature, [arg terms], payload term) of the single build() path"""
+    """-> [(signature, [arg terms], big endian, rest segments, label)] one per returning path of build(); a path whose value is
+    not <packed header> + <payload> at all is reported: what build() emits must be the encoding of the fields on every path"""
     paths = [p for p in eng.paths(fi, recv=HDR) if p.returns()]
     run.paths += len(paths)
-    if len(paths) != 1:
-        raise AnalysisError(f"{fi.qual}: expected one encoding path, found {len(paths)}")
-    segs = layout.segments(eng, paths[0].retval())
-    packs = [s for s in segs if s[0] == "pack"]
-    rest = [s for s in segs if s[0] != "pack"]
-    if not packs or segs[: len(packs)] != packs:
-        raise AnalysisError(f"{fi.qual}: encoded value is not <packed header> + <payload> ({[s[0] for s in segs]})")
-    sig, args, be = [], [], True
-    for _, fm, a in packs:
-        sig += fm.signature()
-        args += list(a)
-        be = be and fm.big_endian
-    return sig, args, be, rest
+    tables = []
+    for k, p in enumerate(paths):
+        segs = layout.segments(eng, p.retval())
+        packs = [s for s in segs if s[0] == "pack"]
+        rest = [s for s in segs if s[0] != "pack"]
+        when = " and ".join(("" if v else "not ") + show(c)[:60] for c, v, _, _ in p.conds) or "always"
+        if not packs or segs[: len(packs)] != packs:
+            run.ob("L1", f"{fi.qual}:every-path-encodes-the-fields[{show(p.retval())[:50]}]", False, loc(fi),
+                   f"build() returns {show(p.retval())[:80]} when {when}: that is not <packed header fields> + <payload> - the "
+                   "encoding of a message must be a function of its fields (a remembered / cached image can differ from them)")
+            continue
+        sig, args, be = [], [], True
+        for _, fm, a in packs:
+            sig += fm.signature()
+            args += list(a)
+            be = be and fm.big_endian
+        tables.append((sig, args, be, rest, "" if len(paths) == 1 else f"[when {when}]"))
+    if not tables:
+        raise AnalysisError(f"{fi.qual}: no path returns <packed header> + <payload> ({len(paths)} returning paths)")
+    if len(paths) > 0 and len(tables) == len(paths):
+        run.ob("L1", f"{fi.qual}:every-path-encodes-the-fields", True, loc(fi), f"all {len(paths)} returning path(s) of build() pack the header fields and append the payload")
+    return tables
 
 
 def check(run, prog, tier):
@@ -68,30 +78,32 @@ def check(run, prog, tier):
     run.analysed(build, parse)
 
     # ------------------------------------------------------------------ L1 / L2 writer
-    sig, args, be, rest = writer_table(run, prog, eng, build, me)
-    run.ob("L1", f"{build.qual}:byte-order", be, loc(build), "header is packed big-endian (network order)" if be else "header is not packed in network byte order")
+    tables = writer_table(run, prog, eng, build, me)
     want_sig = [("u", w) for _, _, w in SPEC]
-    run.ob("L1", f"{build.qual}:field-widths", sig == want_sig, loc(build),
-           f"packed widths {[w for _, w in sig]} {'==' if sig == want_sig else '!='} SOME/IP widths {[w for _, w in want_sig]} (unsigned)")
-    if len(args) != len(SPEC):
-        run.ob("L1", f"{build.qual}:arity", False, loc(build), f"{len(args)} values packed, the header has {len(SPEC)} fields")
-        wtab = {}
-    else:
-        wtab = {}
-        for i, ((f, kind, w), a) in enumerate(zip(SPEC, args)):
-            d = layout.w_descr(a, me)
-            if kind == "length":
-                ok = d == ("linear", ((("len", ("field", "payload")), 1),), 8)
-                run.ob("L2", f"{build.qual}:length-field", ok, loc(build),
-                       f"length field is {show(a)}" + ("" if ok else "; the statement demands payload length + 8, unmasked"))
-                continue
-            ok = d == ("field", f) or (kind == "enum" and d == ("enum", f))
-            wtab[i] = d
-            run.ob("L1", f"{build.qual}:position[{i}]={f}", ok, loc(build),
-                   f"wire position {i} carries {show(a)}; SOME/IP puts {f} there")
-    ok_tail = len(rest) == 1 and rest[0] == ("bytes", ("attr", me, "payload"))
-    run.ob("L1", f"{build.qual}:payload-follows-header", ok_tail, loc(build),
-           "payload bytes follow the 16 byte header unchanged" if ok_tail else f"after the header comes {[show(s[1]) if s[0] == 'bytes' else s[0] for s in rest]}")
+    for sig, args, be, rest, lab in tables:
+        run.ob("L1", f"{build.qual}:byte-order{lab}", be, loc(build), "header is packed big-endian (network order)" if be else "header is not packed in network byte order")
+        run.ob("L1", f"{build.qual}:field-widths{lab}", sig == want_sig, loc(build),
+               f"packed widths {[w for _, w in sig]} {'==' if sig == want_sig else '!='} SOME/IP widths {[w for _, w in want_sig]} (unsigned)")
+        if len(args) != len(SPEC):
+            run.ob("L1", f"{build.qual}:arity{lab}", False, loc(build), f"{len(args)} values packed, the header has {len(SPEC)} fields")
+            wtab = {}
+        else:
+            wtab = {}
+            for i, ((f, kind, w), a) in enumerate(zip(SPEC, args)):
+                d = layout.w_descr(a, me)
+                if kind == "length":
+                    ok = d == ("linear", ((("len", ("field", "payload")), 1),), 8)
+                    run.ob("L2", f"{build.qual}:length-field{lab}", ok, loc(build),
+                           f"length field is {show(a)}" + ("" if ok else "; the statement demands payload length + 8, unmasked"))
+                    continue
+                ok = d == ("field", f) or (kind == "enum" and d == ("enum", f))
+                wtab[i] = d
+                run.ob("L1", f"{build.qual}:position[{i}]={f}{lab}", ok, loc(build),
+                       f"wire position {i} carries {show(a)}; SOME/IP puts {f} there")
+        ok_tail = len(rest) == 1 and rest[0] == ("bytes", ("attr", me, "payload"))
+        run.ob("L1", f"{build.qual}:payload-follows-header{lab}", ok_tail, loc(build),
+               "payload bytes follow the 16 byte header unchanged" if ok_tail else f"after the header comes {[show(s[1]) if s[0] == 'bytes' else s[0] for s in rest]}")
+    sig, args, be, rest, _ = tables[0]
 
     # ------------------------------------------------------------------ L3 reader bindings
     buf = P(parse, param_at(parse, 0, "buf"))
